@@ -171,4 +171,20 @@ META = {
                  "the connection chooses to build is not modelled; Negotiator and the datagram builder are tied by G and the wire oracle only."),
         "technique": "Lean 4 theorems over allowance / reset-length / VN decision models + regenerated-constant bridges + differential and wire-level trace correspondence",
     },
+
+    "C13": {
+        "category": "proof",
+        "text": ("Lean theorems by induction over arbitrary registry histories (register / retire / ack / loss / timeout / transmit): the number of "
+                 "unretired IDs in the peer's view (counted per RFC 9000 5.1.1) never exceeds the peer's active_connection_id_limit, "
+                 "retire_prior_to never exceeds the next sequence number, IDs and reset tokens are pairwise distinct, every registered ID routes "
+                 "to its connection, only IDs the peer issued are retired and never inside a packet addressed to that ID; sequence-number "
+                 "consecutiveness and retire_prior_to <= seq are proved under a monotone-expiry hypothesis, with proved counterexamples "
+                 "without it; the trace acceptor is proved sound. Tie: real end-to-end traces with peer limits 2..8 (declared limit rewritten at "
+                 "the TLS layer), short ID lifetimes, handshake-ID rotation, client rebinding schedules and loss of NEW/RETIRE_CONNECTION_ID "
+                 "frames: every NEW_CONNECTION_ID / RETIRE_CONNECTION_ID frame and every datagram's destination ID is checked by an RFC-side "
+                 "PeerView oracle and replayed through the Lean acceptor (verdicts must agree; tampered traces must be rejected by both)."),
+        "note": ("Trusted: Lean kernel (standard axioms), vh-e2e harness, python oracle. No in-crate differential tie for the registries (private to "
+                 "s2n-quic-transport); the path manager is modelled for the active path only. Known finding F14 (expired-unconfirmed IDs unroutable)."),
+        "technique": "Lean 4 invariant proofs over connection-ID registry models + end-to-end frame/routing trace oracle cross-checked with a Lean trace acceptor",
+    },
 }
